@@ -40,6 +40,9 @@ def programs(ck):
   add('probe', '@Engine("sqlite");\nT(1, 2, 3);\nR(a*(b+c)) :- T(a, b, c);\nS(x) :- T(a, b, c), x == a%(b/c), a^2 > 0;\n', ['R', 'S'])
   add('incantation', '@Engine("sqlite");\n# %s\nT(1, 2, 3);\nR(a * (b + c)) :- T(a, b, c);\n' % INCANTATION, ['R'])
   add('failing', '@Engine("sqlite");\nR(x) :- T(x;\n', ['R'])
+  # a program that switches the experimental syntax on and is then rejected (by the parser / by the compiler)
+  add('failing', '@Engine("sqlite");\n# %s\nT(1, 2, 3);\nR(a * (b + c) :- T(a, b, c);\n' % INCANTATION, ['R'])
+  add('failing', '@Engine("sqlite");\n# %s\nT(1, 2, 3);\nR(a * (b + z)) :- T(a, b, c);\n' % INCANTATION, ['R'])
   for i in range(ck.budget(9, 200)):
     pr = G.Gen(rng).generate()
     add('generated', pr.text(), [p.name for p in pr.preds if p.kind != 'facts'][:3], reuse=True)
@@ -107,7 +110,10 @@ def run(ck):
     fail = [j for j in special if jobs[j]['kind'] == 'failing']
     h2 = inc + shard
     h3 = fail + shard + shard
-    for hn, order in (('reversed', h1), ('after-incantation', h2), ('after-failure-twice', h3)):
+    hs = [('reversed', h1), ('after-incantation', h2), ('after-failure-twice', h3)]
+    # each rejected program on its own right before the shard (a later successful parse may undo what it left behind)
+    hs += [('after-failure-%d' % k, [f] + shard) for k, f in enumerate(fail)]
+    for hn, order in hs:
       tasks.append(('history:' + hn, si, 0, {'jobs': dict({j: jobs[j] for j in shard}, **special), 'order': order}))
   outs = core.pmap(run_proc, [(t[2], t[3]) for t in tasks], chunksize=1)
   base = {}
